@@ -229,6 +229,9 @@ pub fn cmd_defrag_stream(args: &[String]) -> i32 {
         let k = emit(&mut p, "parse_record", 22, chunk.clone(), &mut out);
         if k != "inc" || n > 700 { break; }
     }
+    // a record of ANOTHER type, as large as the one just refused for size: still refused for its type
+    emit(&mut p, "parse_record", 23, chunk.clone(), &mut out);
+    emit(&mut p, "parse_record", 21, vec![1u8; 16640], &mut out);
     // fill up to one byte below the limit, then the byte that would reach it
     let room = MAX_RECORD_DATA - 1 - p.verif_defrag_buffer().len();
     emit(&mut p, "parse_record", 22, vec![7u8; room.min(16640)], &mut out);
